@@ -37,8 +37,11 @@ var c20core = []int{0, 1, 2, 3, 4, 5, 6, 7, 15, 16, 18, 22, 23, 26}
 type c20Case struct {
 	Fields []int `json:"fields"`
 	Into   bool  `json:"into"`
-	Mode   int   `json:"mode"` // 0 raw, 1 after RewriteTimeFields, 2 OmitTime, 3 named once, then every reference renamed in place
+	Mode   int   `json:"mode"`             // 0 raw, 1 after RewriteTimeFields, 2 OmitTime, 3 named once, then every reference renamed in place
+	Target int   `json:"target,omitempty"` // how the INTO target is written: 0 a name, 1 the :MEASUREMENT back-reference, 2 fully qualified, 3 with an empty policy
 }
+
+var c20targets = []string{"t", "db1.rp1.:MEASUREMENT", "db1.rp1.t", `"db 1"..t`}
 
 func (c c20Case) text() string {
 	var fs []string
@@ -47,7 +50,7 @@ func (c c20Case) text() string {
 	}
 	s := "SELECT " + strings.Join(fs, ", ")
 	if c.Into {
-		s += " INTO t"
+		s += " INTO " + c20targets[c.Target]
 	}
 	return s + " FROM m"
 }
@@ -237,7 +240,7 @@ func c20run(r *ev.Run) {
 			}
 			seen[k] = true
 		}
-		r.State(astx.HashString(fmt.Sprintf("%v|%v|%d", c.Fields, c.Into, c.Mode)), dupNames || len(c.Fields) > 1)
+		r.State(astx.HashString(fmt.Sprintf("%v|%v|%d|%d", c.Fields, c.Into, c.Mode, c.Target)), dupNames || len(c.Fields) > 1)
 		r.Sample(n, func() interface{} { return fmt.Sprintf("%s [mode %d]", c.text(), c.Mode) })
 		for _, f := range c20eval(c) {
 			r.Report(f)
@@ -258,6 +261,12 @@ func c20run(r *ev.Run) {
 			for _, into := range []bool{false, true} {
 				for mode := 0; mode < 5; mode++ {
 					run(c20Case{Fields: fs, Into: into, Mode: mode})
+					// an INTO clause is an INTO clause however its target is written (short lists)
+					if into && L <= 2 {
+						for tg := 1; tg < len(c20targets); tg++ {
+							run(c20Case{Fields: fs, Into: into, Mode: mode, Target: tg})
+						}
+					}
 				}
 			}
 		})
@@ -296,5 +305,5 @@ func c20run(r *ev.Run) {
 	r.Set("core_alphabet", len(c20core))
 	r.Set("max_len_full_alphabet", maxLen)
 	r.Set("max_len_core_alphabet", coreLen)
-	r.Rule = "every field list up to the stated lengths over the field alphabet x {no INTO, INTO} x {raw, after RewriteTimeFields, OmitTime, renamed in place after a first naming, RewriteTimeFields then OmitTime}; state = (list, into, mode); non-trivial = at least two fields"
+	r.Rule = "every field list up to the stated lengths over the field alphabet x {no INTO, INTO (lists of <=2 fields: four ways of writing the target, the :MEASUREMENT back-reference among them)} x {raw, after RewriteTimeFields, OmitTime, renamed in place after a first naming, RewriteTimeFields then OmitTime}; state = (list, into, mode); non-trivial = at least two fields"
 }
